@@ -791,8 +791,15 @@ func (i *biterator) SeekGE(item *kvitem) {
 	}
 }
 
+// SeekForPrev seeks to the last item less-than or equal to key, as the other
+// engines do: an exact match first, else the strict SeekLT.
 func (i *biterator) SeekForPrev(key []byte) {
-	i.SeekLT(&kvitem{key: key})
+	item := &kvitem{key: key}
+	i.SeekGE(item)
+	if i.Valid() && i.cmp(i.Cur(), item) == 0 {
+		return
+	}
+	i.SeekLT(item)
 }
 
 // SeekLT seeks to the first item less-than the provided item.
